@@ -156,6 +156,7 @@ type vInv struct {
 	cbReg        int  // cleanups registered inside Custom generator functions
 	cbRun        int  // ... of which have run
 	customCalls  int  // invocations of a Custom generator function (every try counts)
+	customSignals int // failure signals raised inside Custom generator functions (they reach the test case as a panic)
 	customLeak   bool // a Custom function was entered while cleanups of an earlier call were still pending
 	customCtxBad bool // a Custom call saw the context of an earlier call, or that context was still live
 	cleanupSkips int // t.Skip called from inside a cleanup callback
@@ -347,7 +348,7 @@ func (p *vProg) execCB(t *T, ops []uint8, inv *vInv, inCallback bool, inCleanup 
 			} else {
 				inv.failMsg = "fatal at site D with value false"
 			}
-			t.Fatalf("fatal at site D with value %v", lastBit)
+			t.Fatalf("%s", inv.failMsg) // one call site; the text was made concrete by the branch above
 		case opFailNow:
 			inv.signals++
 			inv.fatalAt = 4
@@ -447,6 +448,8 @@ func (p *vProg) execCB(t *T, ops []uint8, inv *vInv, inCallback bool, inCleanup 
 					inv.customCtxBad = true
 				}
 				prevCtx = ctx
+				before := inv.signals
+				defer func() { inv.customSignals += inv.signals - before }()
 				p.exec(ct, p.sub, inv, true)
 				if Bool().Draw(ct, "cb") {
 					return 1
